@@ -237,7 +237,7 @@ def split_cases(text):
     return cases, order
 
 
-def run_drivers(script_path, timeout=1200):
+def run_drivers(script_path, timeout=300):
     """Run model and implementation on one script file, return (ml_out, rs_out)."""
     ml = subprocess.Popen("ulimit -s unlimited 2>/dev/null; exec %s %s" % (os.path.join(OCAML, "driver"), script_path),
                           shell=True, stdout=subprocess.PIPE, stderr=subprocess.PIPE, text=True, errors="replace")
